@@ -10,6 +10,7 @@ import MajoranaVerif.Driver.Util
 import MajoranaVerif.Spec.Run
 import MajoranaVerif.Model.Parser
 import MajoranaVerif.Model.SeqMachine
+import MajoranaVerif.Model.Mvp3
 
 namespace Driver.Run
 
@@ -64,7 +65,7 @@ def seqModels (progBytes : List UInt8) (regs : Array (BitVec 32)) (mem : Array (
       let same := fr == spec.final.regs.toList && r.final.ctx.Memory == spec.final.mem.toList
       let cyc := match r.halt with | some .err => 0 | _ => r.cycles
       s!"{showHalt r.halt},{cyc},{r.steps},{if same then "same" else "DIFF"}"
-    s!"m1={one (Model.Seq.runMvp1 app ⟨ctx, 0⟩ fuel)} m2={one (Model.Seq.runMvp2 app ⟨ctx, 0⟩ fuel)}"
+    s!"m1={one (Model.Seq.runMvp1 app ⟨ctx, 0⟩ fuel)} m2={one (Model.Seq.runMvp2 app ⟨ctx, 0⟩ fuel)} m3={one (Model.Mvp3.runMvp3 app ⟨ctx, 0⟩ fuel).toSeq} h3={if Model.Mvp3.accessesOk Model.Mmu.mvp3Config.l1DLineSize Gen.Consts.mvp1.cyclesDecode app fuel ⟨ctx, 0⟩ then 1 else 0}"
 
 /-- `run id ; family=.. fuel=N memsize=M ; regs=r:v,.. ; mem=<hex> ; prog=<hex>` -/
 def run (line : String) : String :=
